@@ -18,10 +18,10 @@ use crustabri::solvers::{
 use serde_json::{json, Value};
 use std::rc::Rc;
 
-pub const MAX_LABELS: usize = 3;
+pub const MAX_LABELS: usize = 4;
 /// labels of the universe; index MAX_LABELS is the never-declared label
-pub const LABELS: [usize; 4] = [10, 20, 30, 99];
-pub const UNKNOWN: u8 = 3;
+pub const LABELS: [usize; 5] = [10, 20, 30, 40, 99];
+pub const UNKNOWN: u8 = 4;
 pub const FACTORS: [f64; 5] = [1.0, 1.25, 1.5, 2.0, 3.0];
 
 #[derive(Clone, Copy, Debug, PartialEq, Eq, Hash, PartialOrd, Ord)]
@@ -199,7 +199,7 @@ pub struct RefState {
     pub args: u8,
     /// bit a*4+b
     pub atts: u16,
-    pub ids: [u8; 4],
+    pub ids: [u8; 5],
     pub next_id: u8,
 }
 
@@ -216,13 +216,13 @@ pub enum OpClass {
 
 impl RefState {
     pub fn new() -> Self {
-        RefState { args: 0, atts: 0, ids: [0; 4], next_id: 0 }
+        RefState { args: 0, atts: 0, ids: [0; 5], next_id: 0 }
     }
     pub fn has_arg(&self, a: u8) -> bool {
         self.args >> a & 1 == 1
     }
     pub fn has_att(&self, a: u8, b: u8) -> bool {
-        self.atts >> (a * 4 + b) & 1 == 1
+        a < 4 && b < 4 && self.atts >> (a * 4 + b) & 1 == 1
     }
     pub fn classify(&self, op: &Op) -> OpClass {
         match *op {
@@ -287,7 +287,7 @@ impl RefState {
     }
     /// the graph on label indices 0..4 restricted to present arguments, plus index map new -> label idx
     pub fn graph(&self) -> (Graph, Vec<usize>) {
-        let present: Vec<usize> = (0..4).filter(|&a| self.has_arg(a as u8)).collect();
+        let present: Vec<usize> = (0..MAX_LABELS).filter(|&a| self.has_arg(a as u8)).collect();
         let mut att = vec![];
         for (i, &a) in present.iter().enumerate() {
             for (j, &b) in present.iter().enumerate() {
@@ -626,6 +626,8 @@ pub struct Alphabet {
     /// include the variant without certificate for queries (always for the dummy solver)
     pub nocert_queries: bool,
     pub max_queries: usize,
+    /// continuations consist of queries only
+    pub queries_only: bool,
     /// number of history-tree nodes visited (prefixes)
     pub nodes: std::cell::Cell<u64>,
 }
@@ -636,6 +638,7 @@ impl Alphabet {
         let mut v = vec![];
         let lab_hi = if bad_budget > 0 && self.with_unknown_label { n + 1 } else { n };
         let lab = |i: u8| if i == n { UNKNOWN } else { i };
+        let lab_hi = if self.queries_only { 0 } else { lab_hi };
         for i in 0..lab_hi {
             let a = lab(i);
             if a != UNKNOWN {
